@@ -435,7 +435,12 @@ fn oracles(c: &Case, allow_run: &RunOut, full_bindings: &str, st: &mut Stats, fa
                     if full_texts.contains(l.text.as_str()) {
                         continue;
                     }
-                    if l.text.contains("_bindgen_ty_") && full_norm.contains(&renumber_anon(&l.text)) {
+                    // region of `anon_type_renumbered`, input-defined: only an `--allowlist-file` pattern makes the root
+                    // filter answer before it asks for an item's name (Reach.nameRequestedByRootFilter,
+                    // C09_names_requested_without_files); without one every enabled item is named in item order whatever
+                    // the patterns are, and a renumbered anonymous type is a failure
+                    let file_patterns = !c.allow.files.is_empty();
+                    if file_patterns && l.text.contains("_bindgen_ty_") && full_norm.contains(&renumber_anon(&l.text)) {
                         st.anon_renumbered += 1;
                         let other = full.iter().find(|f| renumber_anon(&f.text) == renumber_anon(&l.text)).map(|f| f.text.clone()).unwrap_or_default();
                         st.known("anon_type_renumbered", format!("allow-listed: `{}`  full: `{}`  flags {:?} header {}", &l.text[..l.text.len().min(160)], &other[..other.len().min(160)], c.flags, json_str(&format!("{}\n{}", c.inc_h, c.main_h))));
